@@ -661,4 +661,110 @@ Proof.
   cbn [sp_cu_unpack sp_bind]. destruct der as [|[|der]]; [reflexivity|reflexivity|lia].
 Qed.
 
+(** cu_eval_spline_1d_scalar: sum_j coeffs[span-3+j] * basis[j] with (span, offset) of cu_find_span *)
+Theorem sp_cu_eval_1d_scalar_spec xmin xmax dx fn rest coeffs x der span offset :
+  sp_cu_find_span F K xmin xmax dx x (sptrunc K fn) = SpOk (span, offset) ->
+  (der <= 1)%nat -> (3 <= span)%Z -> (Z.to_nat span < length coeffs)%nat ->
+  sp_cu_eval_1d_scalar F K x (xmin :: xmax :: dx :: fn :: rest) 3 coeffs der
+  = SpOk (sumr 0 4 (fun j => nth (Z.to_nat span - 3 + j) coeffs 0
+        * nth j (match der with 0%nat => sp_cu_basis_funs F K offset
+                              | _ => sp_cu_basis_funs_1st_der F K offset dx end) 0)).
+Proof.
+  intros E H1 H3 Hc. unfold sp_cu_eval_1d_scalar. cbn [sp_cu_unpack sp_bind]. unfold sp_cu_point.
+  rewrite E. cbn [sp_bind fst snd].
+  assert (Eb : sp_cu_basis_sel F K der offset dx = SpOk (match der with 0%nat => sp_cu_basis_funs F K offset
+                              | _ => sp_cu_basis_funs_1st_der F K offset dx end)).
+  { destruct der as [|[|der]]; [reflexivity|reflexivity|lia]. }
+  rewrite Eb. cbn [sp_bind]. unfold sp_span_nat. destruct (Z.leb_spec 3 span); [|lia]. cbn [sp_bind].
+  unfold sp_dot_checked. destruct (Nat.leb_spec 3 (Z.to_nat span)); [|lia].
+  destruct (Nat.ltb_spec (Z.to_nat span) (length coeffs)); [|lia]. cbn [andb].
+  rewrite sp_dot_loop_sum. reflexivity.
+Qed.
+
+(** cu_eval_spline_2d_cross = the scalar entry point on the grid X x Y *)
+Theorem sp_cu_eval_2d_cross_eq_grid X Y k1 d1 k2 d2 coeffs e1 e2 u1 u2 (f : F -> F -> F) :
+  sp_cu_unpack F K k1 = SpOk u1 -> sp_cu_unpack F K k2 = SpOk u2 ->
+  (e1 <= 1)%nat -> (e2 <= 1)%nat -> Y <> [] ->
+  (forall x y, In x X -> In y Y -> sp_cu_eval_2d_scalar F K x y k1 d1 k2 d2 coeffs e1 e2 = SpOk (f x y)) ->
+  sp_cu_eval_2d_cross F K X Y k1 d1 k2 d2 coeffs e1 e2 = SpOk (map (fun x => map (f x) Y) X).
+Proof.
+  intros U1 U2 He1 He2 HY H. unfold sp_cu_eval_2d_cross. unfold sp_cu_eval_2d_scalar in H.
+  rewrite U1, U2 in *. cbn [sp_bind] in *.
+  destruct u1 as [[[xmin xmax] dx] ncx]. destruct u2 as [[[ymin ymax] dy] ncy].
+  assert (E : match e1 with
+    | 0%nat => match e2 with 0%nat | 1%nat => sp_mapM (fun x =>
+        sp_bind (sp_cu_find_span F K xmin xmax dx x ncx) (fun so1 =>
+        sp_bind (sp_cu_basis_sel F K e1 (snd so1) dx) (fun basis1 =>
+        sp_mapM (fun y => sp_bind (sp_cu_find_span F K ymin ymax dy y ncy) (fun so2 =>
+          sp_bind (sp_cu_basis_sel F K e2 (snd so2) dy) (fun basis2 =>
+          sp_cu_tensor F K coeffs (fst so1) d1 (fst so2) d2 basis1 basis2))) Y))) X | _ => SpArgErr end
+    | 1%nat => match e2 with 0%nat | 1%nat => sp_mapM (fun x =>
+        sp_bind (sp_cu_find_span F K xmin xmax dx x ncx) (fun so1 =>
+        sp_bind (sp_cu_basis_sel F K e1 (snd so1) dx) (fun basis1 =>
+        sp_mapM (fun y => sp_bind (sp_cu_find_span F K ymin ymax dy y ncy) (fun so2 =>
+          sp_bind (sp_cu_basis_sel F K e2 (snd so2) dy) (fun basis2 =>
+          sp_cu_tensor F K coeffs (fst so1) d1 (fst so2) d2 basis1 basis2))) Y))) X | _ => SpArgErr end
+    | _ => SpArgErr end =
+    sp_mapM (fun x =>
+        sp_bind (sp_cu_find_span F K xmin xmax dx x ncx) (fun so1 =>
+        sp_bind (sp_cu_basis_sel F K e1 (snd so1) dx) (fun basis1 =>
+        sp_mapM (fun y => sp_bind (sp_cu_find_span F K ymin ymax dy y ncy) (fun so2 =>
+          sp_bind (sp_cu_basis_sel F K e2 (snd so2) dy) (fun basis2 =>
+          sp_cu_tensor F K coeffs (fst so1) d1 (fst so2) d2 basis1 basis2))) Y))) X).
+  { destruct e1 as [|[|e1]]; [| |lia]; (destruct e2 as [|[|e2]]; [reflexivity|reflexivity|lia]). }
+  rewrite E. clear E. apply sp_mapM_ok. intros x Hx.
+  destruct Y as [|y0 Y']; [contradiction|].
+  pose proof (H x y0 Hx (or_introl eq_refl)) as H0.
+  destruct (sp_cu_find_span F K xmin xmax dx x ncx) as [so1| | | |] eqn:Es1; cbn [sp_bind] in H0; try discriminate.
+  cbn [sp_bind].
+  destruct (sp_cu_find_span F K ymin ymax dy y0 ncy) as [so20| | | |]; cbn [sp_bind] in H0; try discriminate.
+  destruct (sp_cu_basis_sel F K e1 (snd so1) dx) as [b1| | | |] eqn:Eb1; cbn [sp_bind] in H0; try discriminate.
+  cbn [sp_bind]. apply sp_mapM_ok. intros y Hy.
+  pose proof (H x y Hx Hy) as H1. rewrite Es1 in H1. cbn [sp_bind] in H1.
+  destruct (sp_cu_find_span F K ymin ymax dy y ncy) as [so2| | | |]; cbn [sp_bind] in H1; try discriminate.
+  rewrite Eb1 in H1. cbn [sp_bind] in H1. cbn [sp_bind]. exact H1.
+Qed.
+
+(** cu_eval_spline_2d_vector = the scalar entry point at the pairs (x[i], y[i]) *)
+Theorem sp_cu_eval_2d_vector_eq_zip xs ys k1 d1 k2 d2 coeffs e1 e2 u1 u2 (f : F -> F -> F) :
+  sp_cu_unpack F K k1 = SpOk u1 -> sp_cu_unpack F K k2 = SpOk u2 ->
+  (e1 <= 1)%nat -> (e2 <= 1)%nat -> length xs = length ys ->
+  (forall x y, In (x, y) (combine xs ys) -> sp_cu_eval_2d_scalar F K x y k1 d1 k2 d2 coeffs e1 e2 = SpOk (f x y)) ->
+  sp_cu_eval_2d_vector F K xs ys k1 d1 k2 d2 coeffs e1 e2
+  = SpOk (map (fun p => f (fst p) (snd p)) (combine xs ys)).
+Proof.
+  intros U1 U2 He1 He2 Hl H. unfold sp_cu_eval_2d_vector. unfold sp_cu_eval_2d_scalar in H.
+  rewrite U1, U2 in *. cbn [sp_bind] in *.
+  destruct u1 as [[[xmin xmax] dx] ncx]. destruct u2 as [[[ymin ymax] dy] ncy].
+  destruct e1 as [|[|e1]]; [| |lia]; (destruct e2 as [|[|e2]]; [| |lia]); apply sp_zipM_ok; assumption.
+Qed.
+
+(** cu_eval_spline_2d_scalar: the tensor-product sum with the spans/offsets of cu_find_span *)
+Theorem sp_cu_eval_2d_scalar_spec k1 k2 coeffs x y e1 e2 xmin xmax dx ncx ymin ymax dy ncy s1 o1 s2 o2 :
+  sp_cu_unpack F K k1 = SpOk (xmin, xmax, dx, ncx) -> sp_cu_unpack F K k2 = SpOk (ymin, ymax, dy, ncy) ->
+  sp_cu_find_span F K xmin xmax dx x ncx = SpOk (s1, o1) ->
+  sp_cu_find_span F K ymin ymax dy y ncy = SpOk (s2, o2) ->
+  (e1 <= 1)%nat -> (e2 <= 1)%nat -> (3 <= s1)%Z -> (3 <= s2)%Z ->
+  (Z.to_nat s1 < length coeffs)%nat -> (forall row, In row coeffs -> (Z.to_nat s2 < length row)%nat) ->
+  sp_cu_eval_2d_scalar F K x y k1 3 k2 3 coeffs e1 e2
+  = SpOk (sumr 0 4 (fun i => sumr 0 4 (fun j =>
+      nth (Z.to_nat s2 - 3 + j) (nth (Z.to_nat s1 - 3 + i) coeffs []) 0
+      * nth j (match e2 with 0%nat => sp_cu_basis_funs F K o2 | _ => sp_cu_basis_funs_1st_der F K o2 dy end) 0)
+      * nth i (match e1 with 0%nat => sp_cu_basis_funs F K o1 | _ => sp_cu_basis_funs_1st_der F K o1 dx end) 0)).
+Proof.
+  intros U1 U2 E1 E2 He1 He2 H1 H2 Hc1 Hc2. unfold sp_cu_eval_2d_scalar. rewrite U1, U2. cbn [sp_bind].
+  rewrite E1, E2. cbn [sp_bind fst snd].
+  assert (Eb : forall e o d, (e <= 1)%nat -> sp_cu_basis_sel F K e o d
+     = SpOk (match e with 0%nat => sp_cu_basis_funs F K o | _ => sp_cu_basis_funs_1st_der F K o d end)).
+  { intros e o d He. destruct e as [|[|e]]; [reflexivity|reflexivity|lia]. }
+  rewrite !Eb by assumption. cbn [sp_bind]. unfold sp_cu_tensor. cbn [Nat.eqb andb]. unfold sp_span_nat.
+  destruct (Z.leb_spec 3 s1); [|lia]. destruct (Z.leb_spec 3 s2); [|lia]. cbn [sp_bind].
+  unfold sp_tensor_checked.
+  destruct (Nat.leb_spec 3 (Z.to_nat s1)); [|lia]. destruct (Nat.ltb_spec (Z.to_nat s1) (length coeffs)); [|lia].
+  destruct (Nat.leb_spec 3 (Z.to_nat s2)); [|lia]. cbn [andb].
+  replace (forallb (fun row => (Z.to_nat s2 <? length row)%nat) coeffs) with true.
+  - rewrite sp_tensor_loop_sum. reflexivity.
+  - symmetry. apply forallb_forall. intros row Hr. apply Nat.ltb_lt. apply Hc2, Hr.
+Qed.
+
 End Theory.
